@@ -444,9 +444,10 @@ class ExcRec:
 
 
 class Summary:
-    __slots__ = ('ret', 'excs', 'facts', 'pure', 'alts')
+    __slots__ = ('ret', 'excs', 'facts', 'pure', 'alts', 'hv')
 
     def __init__(self):
+        self.hv = {}           # fields of identified objects on normal return (flow sensitive part of the heap)
         self.ret = BOT
         self.excs = {}
         self.facts = None      # must-facts gained on normal return (None = no normal return seen yet)
@@ -455,7 +456,7 @@ class Summary:
                                # with different facts: the caller continues with one disjunct per alternative
 
     def snapshot(self):
-        return (self.ret, frozenset(self.excs), self.facts, self.pure, self.alts)
+        return (self.ret, frozenset(self.excs), self.facts, self.pure, self.alts, frozenset(self.hv.items()))
 
 
 class Scope:
@@ -610,6 +611,40 @@ def base_class(name):
     return name.split('@')[0] if '@' in name else name
 
 
+def is_flow_object(atom):
+    """an object created once per activation of a function (not while the module is initialised): its attributes are tracked
+    flow-sensitively in the stores, under keys ('$hv', object, attribute)"""
+    return atom[0] == 'obj' and '@s' in atom[1]
+
+
+def object_ids(val, acc, _depth=0):
+    if _depth > 4:
+        return acc
+    for a in val:
+        k = a[0]
+        if k == 'obj':
+            if '@s' in a[1]:
+                acc.add(a[1])
+        elif k in ('list', 'set'):
+            object_ids(a[1], acc, _depth + 1)
+        elif k == 'seq':
+            for e in a[2]:
+                object_ids(e, acc, _depth + 1)
+        elif k == 'dict':
+            object_ids(a[2], acc, _depth + 1)
+        elif k == 'kdict':
+            for _, e in a[1]:
+                object_ids(e, acc, _depth + 1)
+        elif k == 'bound' and isinstance(a[1], tuple) and a[1][0] == 'obj' and '@s' in a[1][1]:
+            acc.add(a[1][1])
+        elif k == 'partial':
+            for e in a[2]:
+                object_ids(e, acc, _depth + 1)
+            for _, e in a[3]:
+                object_ids(e, acc, _depth + 1)
+    return acc
+
+
 class Args:
     __slots__ = ('pos', 'star', 'kw', 'kwstar', 'marker', 'syms')
 
@@ -678,6 +713,8 @@ class Interp:
         self.binding_atoms = set()
         self.unrefined_type_tests = set()
         self.summary_depth = 0
+        self.unroll_depth = 0
+        self.fn_attrs = {}
         self.ident_counter = 0
         self.partition_unknown = False
         self._mro_cache, self._fm_cache, self._sub_cache = {}, {}, {}
@@ -1290,9 +1327,99 @@ class Interp:
             raise self.err(st, 'while/else is not modelled')
         out.next.extend(merge_stores(exits))
 
+    def for_over_generator(self, fr, st, gen, out):
+        """`for x in gen(...)`: the loop body runs at every yield of the generator's body, in the generator's own control
+        flow (order and optionality of the yields are kept); the state of the loop travels inside the generator's state"""
+        _, fnatom, bound, parent_fid = gen
+        q = fnatom[1]
+        fnnode = self.funcs[q]
+        if gen in self.active:
+            raise self.err(st, 'recursive generator {}'.format(q))
+        parent = self.frames.get(parent_fid) if parent_fid else None
+        g = Frame(self, q, fnnode, parent, self.fid_for(('gen', q, parent_fid, bound)), self.defcls.get(id(fnnode)))
+        self.frames[g.fid] = g
+        g.store = Store({k: self.brand(q, k, v) for k, v in bound})
+        g.store.vars.update(self.reachable_hv(fr.store, [v for _, v in bound]))
+        g.tin = set()
+        for _, v in bound:
+            tags_of(v, acc=g.tin)
+        if parent is not None:
+            g.tin |= parent.valid_tags()
+        g.summary = Summary()
+        g.depth = fr.depth + 1
+        if g.defcls is not None and fnnode.args.args:
+            g.self_atoms = dict(bound).get(fnnode.args.args[0].arg)
+        self.reached.add(q)
+        table, by_id = {}, {}
+
+        def intern(s_):
+            k_ = (frozenset(s_.vars.items()), s_.facts, s_.guards, frozenset(s_.syms.items()))
+            i = table.get(k_)
+            if i is None:
+                i = table[k_] = len(table) + 1
+                by_id[i] = s_
+            return i
+        g.store.vars['$consumer'] = av(('wstore', intern(fr.store.copy())))
+        breaks = []
+
+        def consumers(gs):
+            lst = [by_id[a[1]].copy() for a in gs.vars.get('$consumer', ()) if a[0] == 'wstore']
+            if not lst:
+                return None
+            c = join_stores(lst) if len(lst) > 1 else lst[0]
+            for k_, v_ in gs.vars.items():
+                if isinstance(k_, tuple):
+                    c.vars[k_] = v_
+            return c
+
+        def at_yield(gfr, yst, gstore, gout, value):
+            cin = consumers(gstore)
+            if cin is None:
+                return
+            fr.store = cin
+            self.assign(fr, st.target, self.fresh_elem(fr, value, st), st)
+            o = self.exec_block(fr, st.body, [cin])
+            out.ret.extend(o.ret)
+            out.exc.extend(o.exc)
+            breaks.extend(o.brk)
+            back = o.next + o.cont
+            if not back:
+                return
+            cout = join_stores(back)
+            for k_ in [k_ for k_ in gstore.vars if isinstance(k_, tuple)]:
+                del gstore.vars[k_]
+            for k_, v_ in cout.vars.items():
+                if isinstance(k_, tuple):
+                    gstore.vars[k_] = v_
+            gstore.vars['$consumer'] = av(('wstore', intern(cout)))
+            gout.next.append(gstore)
+        g.yield_cb = at_yield
+        self.active[gen] = 1
+        try:
+            go = self.exec_block(g, fnnode.body, [g.store])
+        finally:
+            del self.active[gen]
+        finals = []
+        for s_ in go.next + [x[0] for x in go.ret]:
+            c = consumers(s_)
+            if c is not None:
+                finals.append(c)
+        valid = g.tin
+        for (s_, rec) in go.exc:
+            c = consumers(s_) or fr.store.copy()
+            out.exc.append((c, rec.retag(lambda t: t if t in valid else self.ret_tag(st, t)).via(fr.qual, st)))
+        finals = merge_stores(finals)
+        if st.orelse and finals:
+            o = self.exec_block(fr, st.orelse, finals)
+            out.absorb(o)
+            finals = o.next
+        out.next.extend(merge_stores(finals + breaks))
+
     def st_For(self, fr, st, store, out):
         itv = self.eval(fr, st.iter)
         self.flush(fr, out, store)
+        if len(itv) == 1 and next(iter(itv))[0] == 'gen':
+            return self.for_over_generator(fr, st, next(iter(itv)), out)
         mode, elems = self.iteration(fr, itv, st.iter)
         if mode == 'exact' and len(elems) <= MAX_UNROLL:
             cur = [fr.store]
@@ -1304,7 +1431,11 @@ class Interp:
                 for s in cur:
                     fr.store = s
                     self.assign(fr, st.target, self.fresh_elem(fr, e, st), st)
-                    o = self.exec_block(fr, st.body, [s])
+                    self.unroll_depth += 1
+                    try:
+                        o = self.exec_block(fr, st.body, [s])
+                    finally:
+                        self.unroll_depth -= 1
                     out.ret.extend(o.ret)
                     out.exc.extend(o.exc)
                     breaks.extend(o.brk)
@@ -2122,6 +2253,14 @@ class Interp:
 
     # -- heap ---------------------------------------------------------------------------------------------------------------
     def store_attr(self, fr, objval, attr, val, node, weak=False):
+        objs = [a for a in objval if a[0] == 'obj']
+        for a in objs:
+            if is_flow_object(a):
+                hk = ('$hv', a[1], attr)
+                if len(objs) == 1 and not weak:
+                    fr.store.vars[hk] = val
+                else:
+                    fr.store.vars[hk] = join(fr.store.vars.get(hk, BOT), val)
         for a in objval:
             if a[0] == 'obj':
                 cls, tag = a[1], a[2]
@@ -2165,8 +2304,14 @@ class Interp:
                 continue
             elif a == TOP:
                 raise self.err(node, 'attribute store on an unknown value')
-            elif a[0] in ('cls', 'mod', 'fn', 'clo'):
-                raise self.err(node, 'attribute store on a class / module / function')
+            elif a[0] in ('fn', 'clo', 'lam'):
+                old = self.fn_attrs.get((a, attr), BOT)
+                new = join(old, val)
+                if new != old:
+                    self.fn_attrs[(a, attr)] = new
+                    self.changed = True
+            elif a[0] in ('cls', 'mod'):
+                raise self.err(node, 'attribute store on a class / module')
 
     def load_attr(self, fr, val, attr, node):
         out = BOT
@@ -2187,7 +2332,11 @@ class Interp:
                 return av(('cls', base_class(cls)))
             if attr == '__dict__':
                 return self.vars_of(fr, av(a), node)
-            v = self.heap.get((cls, attr))
+            v = None
+            if '@s' in cls:
+                v = fr.store.vars.get(('$hv', cls, attr))
+            if v is None:
+                v = self.heap.get((cls, attr))
             if v is not None:
                 if tag is not None and not (isinstance(tag, tuple) and tag[0] == 'ctor'):
                     return map_tags(v, lambda t: tag)
@@ -2263,7 +2412,15 @@ class Interp:
         if a == DATA:
             return BOT
         if k in ('fn', 'clo', 'lam', 'bound', 'partial'):
-            if attr in ('__name__', '__qualname__'):
+            fa = self.fn_attrs.get((a, attr))
+            if fa is not None:
+                return fa
+            if attr in ('__name__', '__qualname__') and k in ('fn', 'clo'):
+                w = self.fn_attrs.get((a, '__wrapped__'))
+                if w is not None and len(w) == 1 and next(iter(w))[0] in ('fn', 'clo'):
+                    return av(const(next(iter(w))[1].split('.')[-1]))
+                return av(const(a[1].split('.')[-1]))
+            if attr in ('__name__', '__qualname__', '__doc__', '__module__'):
                 return av(STR_S)
             if k == 'partial' and attr == 'func':
                 return av(a[1])
@@ -2970,6 +3127,8 @@ class Interp:
                 summary = True
             if summary:
                 self.summary_depth += 1
+            else:
+                self.unroll_depth += 1
             for e in todo:
                 saved = fr.store
                 s = saved.copy()
@@ -2992,10 +3151,14 @@ class Interp:
                 except BaseException:
                     if summary:
                         self.summary_depth -= 1
+                    else:
+                        self.unroll_depth -= 1
                     raise
                 fr.store = saved
             if summary:
                 self.summary_depth -= 1
+            else:
+                self.unroll_depth -= 1
         go(0)
         fr.store = store0
         return state['exact'], results
@@ -3802,6 +3965,11 @@ class Interp:
                 r = self.call_value(fr, av(a[1]), merged, node)
             elif k == 'builtin':
                 r = self.call_builtin(fr, a[1], args, node)
+            elif k == 'lib' and a[1] == '<wraps>':
+                r = args.pos[0] if args.pos else av(TOP)
+                for w in r:
+                    if w[0] in ('fn', 'clo'):
+                        self.fn_attrs[(w, '__wrapped__')] = a[2]
             elif k == 'lib':
                 r = self.call_lib(fr, a[1], args, node)
             elif k == 'bmeth':
@@ -3953,7 +4121,8 @@ class Interp:
         okfact = self.ok_fact(q, fnnode, bound, syms) if parent is None else None
         pfid = fnatom[2] if fnatom[0] == 'clo' else 0
         guards = fr.store.guards if not any(k[0] == q for k in self.active if isinstance(k, tuple)) else frozenset()
-        key = (q, pfid, tuple(sorted(bound.items())), facts_in, tuple(sorted(syms.items())), guards)
+        hv_in = self.reachable_hv(fr.store, bound.values())
+        key = (q, pfid, tuple(sorted(bound.items())), facts_in, tuple(sorted(syms.items())), guards, frozenset(hv_in.items()) if hv_in else None)
         is_ctor = any(isinstance(t, tuple) and t and t[0] == 'ctor' for t in tin)
         memo = not scope.mutates_free and not is_ctor
         summ = None
@@ -3987,6 +4156,8 @@ class Interp:
             fr.summary.pure = False
         if summ.facts is None:
             return BOT
+        if summ.hv:
+            fr.store.vars.update(summ.hv)
         new_facts = summ.facts
         if okfact is not None and summ.pure:
             new_facts = new_facts | {okfact}
@@ -3998,6 +4169,27 @@ class Interp:
         if new_facts:
             fr.store.facts = fr.store.facts | new_facts
         return map_tags(summ.ret, f)
+
+    def reachable_hv(self, store, values):
+        """the flow-sensitive attributes of the identified objects reachable from the given values"""
+        if not any(isinstance(k, tuple) for k in store.vars):
+            return {}
+        ids = set()
+        for v in values:
+            object_ids(v, ids)
+        out = {}
+        todo = list(ids)
+        seen = set(ids)
+        while todo:
+            o = todo.pop()
+            for k, v in store.vars.items():
+                if isinstance(k, tuple) and k[1] == o:
+                    out[k] = v
+                    more = object_ids(v, set())
+                    for m in more - seen:
+                        seen.add(m)
+                        todo.append(m)
+        return out
 
     @staticmethod
     def discriminator(v):
@@ -4043,6 +4235,8 @@ class Interp:
         callee.depth = fr.depth + 1
         self.frames[fid] = callee
         callee.store = Store({k: self.brand(q, k, v) for k, v in bound.items()}, facts_in, key[5], dict(syms))
+        if key[6]:
+            callee.store.vars.update(dict(key[6]))
         callee.tin = set(tin)
         callee.summary = Summary()
         if callee.defcls is not None and self_val is not None:
@@ -4068,13 +4262,18 @@ class Interp:
         rets = BOT
         facts = None
         groups = {}
+        hv = {}
         for (s, v) in list(out.ret) + [(s, av(NONE)) for s in out.next]:
+            for hk, hvv in s.vars.items():
+                if isinstance(hk, tuple):
+                    hv[hk] = join(hv.get(hk, BOT), hvv)
             rets = join(rets, v)
             facts = s.facts if facts is None else facts & s.facts
             d = self.discriminator(v)
             g = groups.get(d)
             groups[d] = (v, s.facts) if g is None else (join(g[0], v), g[1] & s.facts)
         new.ret = rets
+        new.hv = hv
         if facts is not None:
             new.facts = frozenset(f for f in facts if self.fact_tags(f) <= tin) - facts_in
             if 1 < len(groups) <= MAX_DISJUNCTS and None not in groups:
@@ -4097,6 +4296,8 @@ class Interp:
             new.pure = new.pure and old.pure
             if old.alts and not new.alts and new.facts is not None:
                 new.alts = old.alts
+            for hk, hvv in old.hv.items():
+                new.hv[hk] = join(new.hv.get(hk, BOT), hvv)
         if old is None or old.snapshot() != new.snapshot():
             self.changed = True
             self.why.append(('summary', q, None if old is None else (old.ret != new.ret, frozenset(old.excs) != frozenset(new.excs), old.facts != new.facts, old.pure != new.pure)))
@@ -4121,9 +4322,13 @@ class Interp:
             # created exactly once while the module is initialised: the object keeps an identity (its attributes are its own)
             self.ident_counter += 1
             oname = '{}@{}'.format(cname, self.ident_counter)
+        elif not self.in_module_init and self.summary_depth == 0 and self.unroll_depth == 0 and cname != self.line_class \
+                and not self.is_exception_class(cname) and sum(1 for k in self.active if isinstance(k, tuple) and k[0] == fr.qual) <= 1:
+            # created once per activation of the enclosing function: strong updates of its attributes are sound
+            oname = '{}@s{}:{}'.format(cname, getattr(node, 'lineno', 0), getattr(node, 'col_offset', 0))
         selfatom = ('obj', oname, ('ctor', n))
         c, q = self.find_method(cname, '__init__')
-        mkey = (cname, tuple(args.pos), tuple(sorted(args.kw.items())), args.star, args.kwstar, tuple(sorted(args.syms.items(), key=str)))
+        mkey = (oname if '@s' in oname else cname, tuple(args.pos), tuple(sorted(args.kw.items())), args.star, args.kwstar, tuple(sorted(args.syms.items(), key=str)))
         cached = self.ctor_memo.get(mkey)
         try:
             if cached is not None:
@@ -4864,7 +5069,9 @@ class Interp:
                 self.make_record_class(ci, 'namedtuple', stub)
             return av(('cls', cname))
         if name in ('functools.wraps', 'functools.update_wrapper'):
-            return av(('lib', '<identity>')) if name.endswith('wraps') else (x if x is not None else av(TOP))
+            if name.endswith('wraps'):
+                return av(('lib', '<wraps>', x)) if x is not None else av(('lib', '<identity>'))
+            return x if x is not None else av(TOP)
         if name == '<identity>':
             return x if x is not None else av(TOP)
         if name in ('collections.ChainMap',):
